@@ -60,6 +60,7 @@ OtherLetters == {"ä", "Ä", "ß", "日", "本", "語", "読", "む", "Σ", "σ"
 Letters == AsciiLower \cup AsciiUpper \cup OtherLetters
 IsLetter(c) == c \in Letters
 
+RCHAR == "�"       \* U+FFFD REPLACEMENT CHARACTER (a valid character like any other)
 NBSP  == " "       \* U+00A0 NO-BREAK SPACE (Zs)
 IDSP  == "　"       \* U+3000 IDEOGRAPHIC SPACE (Zs)
 ZsOther == {NBSP, IDSP}
